@@ -50,6 +50,7 @@ type Op struct {
 	K       string `json:"k"` // w | reopen | extren | pause | rmdir | rmactive
 	Size    int    `json:"size,omitempty"`
 	PauseUs int    `json:"pause_us,omitempty"`
+	Ctx     int    `json:"ctx,omitempty"` // w: which kind of context Process is called with (see ctxOf)
 }
 type Case struct {
 	ID      int    `json:"id"`
@@ -131,6 +132,30 @@ var foreignNames = func(fileName string) []string {
 }
 
 const foreignContent = "not an event\n"
+
+// ---------- contexts ----------
+// FileSink.Process takes a context; whatever it is, "returned nil" must mean "the event is in the file".
+// 0 Background, 1 live and cancellable, 2 already cancelled, 3 deadline in the past, 4 a custom type whose Err() is non-nil
+type doneCtx struct{ context.Context }
+
+func (doneCtx) Err() error            { return context.Canceled }
+func (doneCtx) Done() <-chan struct{} { c := make(chan struct{}); close(c); return c }
+
+func ctxOf(kind int) (context.Context, context.CancelFunc) {
+	switch kind {
+	case 1:
+		return context.WithCancel(context.Background())
+	case 2:
+		c, cancel := context.WithCancel(context.Background())
+		cancel()
+		return c, func() {}
+	case 3:
+		return context.WithDeadline(context.Background(), time.Now().Add(-time.Hour))
+	case 4:
+		return doneCtx{context.Background()}, func() {}
+	}
+	return context.Background(), func() {}
+}
 
 // ---------- payloads ----------
 // sequential / concurrent cases: the first byte is the event's key (1..127, unique in the case), every other byte is
@@ -536,7 +561,7 @@ func execSeq(c Case, root string) (res result) {
 		} else {
 			op = c.Ops[i]
 		}
-		fmt.Fprintf(&sigb, "%s%d,", op.K, op.Size)
+		fmt.Fprintf(&sigb, "%s%d.%d,", op.K, op.Size, op.Ctx)
 		switch op.K {
 		case "w":
 			if nextKey > 127 {
@@ -555,7 +580,10 @@ func execSeq(c Case, root string) (res result) {
 			if open {
 				eLo = int64(time.Since(lcPrev))
 			}
-			_, err := fs.Process(context.Background(), ev)
+			pctx, pcancel := ctxOf(op.Ctx)
+			_, err := fs.Process(pctx, ev)
+			pcancel()
+			res.stats[fmt.Sprintf("process_ctx_kind_%d", op.Ctx)]++
 			if open {
 				eHi = int64(time.Since(lcPrev))
 			}
@@ -845,7 +873,11 @@ func genOp(r *hc.Rand, cs Case, fs *el.FileSink, open bool, nextKey int, lastWas
 				size = d
 			}
 		}
-		return Op{K: "w", Size: size}
+		ctxKind := 0
+		if r.Chance(1, 3) {
+			ctxKind = 1 + r.Intn(4)
+		}
+		return Op{K: "w", Size: size, Ctx: ctxKind}
 	case x < 70:
 		return Op{K: "reopen"}
 	case x < 82:
@@ -931,9 +963,11 @@ func execConc(c Case, root string) (res result) {
 			}()
 			<-start
 			for _, e := range evs[w] {
-				if _, err := fs.Process(context.Background(), &el.Event{Formatted: map[string][]byte{el.JSONFormat: e.data}}); err == nil {
+				pctx, pcancel := ctxOf((e.id * 7) % 10) // kinds 5..9 are Background
+				if _, err := fs.Process(pctx, &el.Event{Formatted: map[string][]byte{el.JSONFormat: e.data}}); err == nil {
 					acked[w] = append(acked[w], e.id)
 				}
+				pcancel()
 			}
 		}(w)
 	}
@@ -1077,7 +1111,9 @@ func childMain(cfgJSON string, dir string) {
 			os.Exit(6)
 		}
 		for i := 1; i <= c.FsizeEvents; i++ {
-			_, err := fs.Process(context.Background(), &el.Event{Formatted: map[string][]byte{el.JSONFormat: linePayload(i)}})
+			pctx, pcancel := ctxOf(i % 7)
+			_, err := fs.Process(pctx, &el.Event{Formatted: map[string][]byte{el.JSONFormat: linePayload(i)}})
+			pcancel()
 			b := byte('a')
 			if err != nil {
 				b = 'e'
@@ -1089,7 +1125,9 @@ func childMain(cfgJSON string, dir string) {
 		os.Exit(0)
 	}
 	for i := 1; ; i++ {
-		_, err := fs.Process(context.Background(), &el.Event{Formatted: map[string][]byte{el.JSONFormat: linePayload(i)}})
+		pctx, pcancel := ctxOf(i % 7)
+		_, err := fs.Process(pctx, &el.Event{Formatted: map[string][]byte{el.JSONFormat: linePayload(i)}})
+		pcancel()
 		if err != nil {
 			fmt.Fprintf(os.Stderr, "child: Process %d: %v\n", i, err)
 			os.Exit(4)
